@@ -161,7 +161,7 @@ def ensure_harness(variant="asan"):
 def lean_build(targets=None, timeout=3600):
     """lake build; returns (ok, log)."""
     cmd = ["lake", "build"] + (targets or [])
-    with Lock(os.path.join(CACHE, "locks", "lean.lock")):
+    with Lock(os.path.join(CACHE, "locks", "lean-%s.lock" % hashlib.sha256(LEAN_DIR.encode()).hexdigest()[:8])):   # one lock per working copy
         p = run(cmd, cwd=LEAN_DIR, check=False, timeout=timeout)
     return p.returncode == 0, p.stdout
 
